@@ -33,7 +33,7 @@ REQUIRED = ["histories_checked", "events_checked", "deep_traversals", "low_limit
             "raising_callbacks_checked", "list_mutating_callbacks", "history_traversals",
             "inplace_reparentings", "history_copies", "history_rerootings", "handle_variants",
             "falsy_callable_callbacks", "forest_traversals", "tap__traverse_dfs"]
-FLOOR = {"quick": 1500, "thorough": 20000}
+FLOOR = {"quick": 1200, "thorough": 20000}
 SHARDS = {"quick": 8, "thorough": 16}
 TECHNIQUE = ("runtime monitoring: recorded enter/leave callback histories with unique tokens "
              "checked offline against a structural-recursion trace specification; lowered "
